@@ -24,6 +24,7 @@ FIRST = {
     "C20-describe-dropped-when-busy": "exit 0 (every harness had one emission at a time) -> c20_weak_live_busy with parked in-flight references",
     "C13-router-raw-ancestor": "exit 0 (Kani could not stub get_ancestor and ran the real trie in two trivial states) -> glue.verus.rs contract on Router::route with the documented contracts of get_ancestor / get_raw_ancestor",
     "C13-filter-case-insensitive-dfa-only": "exit 0 (how FilterLayer::layer configures the automaton was an assumption) -> glue.verus.rs contract on FilterLayer::layer over a settings-recording builder stub",
+    "C10-hist-prefix-separator-in-writer": "same (written against C10, the change is in writer.rs: reported by C09's check; C10's own check does not include the writer)",
     "C17-new-span-merges-current-not-parent": "exit 2 (Context stub lacked lookup_current) -> stub widened",
     "C17-filter-sees-empty-value": "exit 2 (closure annotation keyed to parameter names) -> annotation by position",
 }
